@@ -49,7 +49,12 @@ def gen(rng, tier):
         seq = gen_seq(rng, CERT_FIELDS, CERT_VALUES, dict(secret="s1", host="a.ex", issuer="iss", cn="_", dur="_", renew="_", usages="_",
                                                             group="_", kind="_", temp="0", label="_", cm="1"))
         fault = "-" if rng.chance(1, 2) else "%d:%s" % (rng.below(len(seq)), rng.choice(["conflict", "exists", "fail"]))
-        cases.append(dict(line="crt pre=%s fault=%s seq=%s" % (rng.choice(["none", "none", "unowned", "foreign"]), fault, ";".join(seq)), tags=["cert"]))
+        cases.append(dict(line="crt pre=%s fault=%s seq=%s" % (rng.choice(["none", "none", "unowned", "foreign", "ownedstale"]), fault, ";".join(seq)), tags=["cert"]))
+    # a labelled VirtualServer that inherits an owned Certificate with other labels under an old secret name
+    for _ in range(n // 4):
+        seq = gen_seq(rng, CERT_FIELDS, CERT_VALUES, dict(secret=rng.choice(["s1", "s2"]), host="a.ex", issuer="iss", cn="_", dur="_", renew="_", usages="_",
+                                                            group="_", kind="_", temp="0", label=rng.choice(["x", "y"]), cm="1"))
+        cases.append(dict(line="crt pre=ownedstale fault=- seq=%s" % ";".join(seq), tags=["cert", "owned-stale-labels"]))
     for _ in range(n):
         seq = gen_seq(rng, DNS_FIELDS, DNS_VALUES, dict(host="a.ex", ttl="300", rtype="_", label="_", plabel="_", targets="10.0.0.1", enable="1"))
         fault = "-" if rng.chance(1, 2) else "%d:%s" % (rng.below(len(seq)), rng.choice(["conflict", "exists", "fail"]))
